@@ -21,7 +21,7 @@ SPEC = {
           ("ConnectProof", "connect_success_closes", "C09_success_closes", None),
           ("ConnectProof", "connect_fresh_keys", "C09_fresh_keys", "every request carries the base64 of its own fresh 16-byte draw")]),
  "C10": dict(title="C10 — the opening handshake request is well-formed and reflects URL and options.",
-   imports="Base.Res Base.Bytes Base.Str Base.B64 Gen.GenHandshake Spec.HttpReq Model.Xport Model.Http Model.Handshake Proofs.HandshakeProof",
+   imports="Base.Res Base.Bytes Base.Str Base.B64 Gen.GenHandshake Spec.HttpReq Model.Xport Model.Http Model.Handshake Proofs.HandshakeProof Model.Url Model.Open Model.Connect Proofs.RedirectHops",
    items=[("HandshakeProof", "request_wellformed", "C10_request_wellformed", "one syntactically valid GET request ended by an empty line, target = resource"),
           ("HandshakeProof", "request_parse", "C10_request_parse", "the parsed header list, in order"),
           ("HandshakeProof", "request_headers_explicit", "C10_headers_explicit", None),
@@ -43,7 +43,10 @@ SPEC = {
           ("HandshakeProof", "cookie_header_absent", "C10_cookie_absent", None),
           ("HandshakeProof", "cookie_header_last", "C10_cookie_last", None),
           ("HandshakeProof", "custom_headers_position", "C10_custom_headers", None),
-          ("HandshakeProof", "custom_dict_headers", "C10_custom_dict_none_skipped", None)]),
+          ("HandshakeProof", "custom_dict_headers", "C10_custom_dict_none_skipped", None),
+          ("RedirectHops", "do_handshake_records", "C10_request_recorded", "every opening handshake records exactly the request built from its own URL, target, options and the next random draw"),
+          ("RedirectHops", "redirect_hops_are_direct", "C10_redirect_hops_are_direct", "REDIRECTS: the requests of one connect() are the requests of its hops, each built from the hop's own URL (the initial URL, then the Location of each redirect response), one draw per hop"),
+          ("RedirectHops", "single_hop_is_direct", "C10_redirect_target_request_is_direct", "the request sent to a redirect target equals the request of a direct connection to that target with the same options and key draw")]),
  "C16": dict(title="C16 — keepalive pings detect a silent peer in bounded time and never a responsive one.",
    imports="Base.Res Base.Bytes Gen.GenApp Model.PingTimer Proofs.PingProof",
    items=[("PingProof", "C16_args", "C16_args", "exactly the inconsistent interval/timeout pairs are refused"),
